@@ -8,7 +8,7 @@ from harness.impl_algebra import impl_algebra_op, enc_parent
 ID = "C02"
 LEAN_MODULE = "BioCantor.Props.C02"
 EXTRA_LEAN_MODULES = ["BioCantor.Props.C02Ties"]   # Gen kernels (regenerated from source) = hand-written model
-GEN_NEEDS = ["SingleInterval_"]
+GEN_NEEDS = ["SingleInterval_", "Strand_reverse", "Strand_assert_directional", "DistanceType"]
 DESIGN_REF = "4/C02"
 DRIVER = "drivers/C02.lean"
 SPEC_DRIVER = "drivers/SpecC02.lean"
@@ -22,7 +22,8 @@ RULE = ("exhaustive ordered pairs of small layouts x strands x flags x Single/Co
 EXHAUSTIVE_NOTE = ""
 TRUSTED = ["Model/Algebra.lean, Model/ParentKey.lean are hand-written; tied to location_impl.py / location.py / "
            "parent.py by this run's correspondence (exception classes compared)",
-           "Gen/Kernels.lean SingleInterval kernels (extend_absolute, shift_position, optimize_blocks, "
+           "Gen/Kernels.lean SingleInterval kernels (extend_absolute, extend_relative, shift_position, optimize_blocks, "
+           "reset_strand, reverse_strand, reverse, reset_parent, distance_to, _distance_to_single_interval, "
            "_has_overlap_single_interval, _intersection_single_interval) regenerated from source and proved equal to "
            "the model (Props/C02Ties.lean)",
            "Spec/Algebra.lean evaluates coverage position by position up to the largest coordinate in the case"]
